@@ -20,7 +20,33 @@ struct Ctx {
     trees: Vec<(PlainMerkleTree, Vec<u64>)>,
     proofs: Vec<Vec<Hash>>,
     junk: Vec<Hash>,
+    /// EMPTY_ROOTS of the source
+    empty: Vec<Hash>,
     class: u64,
+    /// oracle-only section: operations are not written to the compared stream (the model's term representation of
+    /// `EMPTY_ROOTS[31]` has 2^32 nodes; comparing such terms in the driver takes minutes)
+    mute: bool,
+}
+
+/// the `EMPTY_ROOTS` table of `src/crypto/merkle.rs` (private constants), parsed from the working tree
+fn empty_roots() -> Vec<Hash> {
+    let repo = std::env::var("VERIF_REPO").unwrap_or_else(|_| format!("{}/../../repo", env!("CARGO_MANIFEST_DIR")));
+    let src = std::fs::read_to_string(format!("{repo}/src/crypto/merkle.rs")).expect("merkle.rs");
+    let start = src.find("const EMPTY_ROOTS").expect("EMPTY_ROOTS");
+    let body = &src[start..start + src[start..].find("];").expect("end of table")];
+    let mut out = Vec::new();
+    let mut rest = body;
+    while let Some(q) = rest.find('"') {
+        let tail = &rest[q + 1..];
+        let e = tail.find('"').expect("closing quote");
+        let hexs = &tail[..e];
+        if hexs.len() == 64 && hexs.chars().all(|c| c.is_ascii_hexdigit()) {
+            let bytes: Vec<u8> = (0..32).map(|i| u8::from_str_radix(&hexs[2 * i..2 * i + 2], 16).unwrap()).collect();
+            out.push(wincode::deserialize::<Hash>(&bytes).expect("hash"));
+        }
+        rest = &tail[e + 1..];
+    }
+    out
 }
 
 #[derive(Clone)]
@@ -28,9 +54,16 @@ enum Ref {
     R(usize),
     Q(usize, usize, usize),
     Z(usize),
+    /// `EMPTY_ROOTS[k]` (read from the source file: the constants are not public)
+    E(usize),
+    /// `derive_root(data d, index i, proof P)`
+    D(u64, u64, usize),
 }
 
 impl Ctx {
+    fn step(&mut self, op: &str, out: &str) {
+        if !self.mute { self.rec.step(op, out); }
+    }
     fn junk(&mut self, k: usize, rng: &mut Rng) -> Hash {
         while self.junk.len() <= k {
             let b = rng.bytes(32);
@@ -44,6 +77,8 @@ impl Ctx {
             Ref::R(t) => (format!("R {t}"), self.trees[*t].0.get_root()),
             Ref::Q(t, i, l) => (format!("Q {t} {i} {l}"), self.trees[*t].0.create_proof(*i)[*l].clone()),
             Ref::Z(k) => (format!("Z {k}"), self.junk(*k, rng)),
+            Ref::E(k) => (format!("E {k}"), self.empty[*k].clone()),
+            Ref::D(d, i, p) => (format!("D {d} {i} {p}"), PlainMerkleTree::derive_root(&data(*d), *i as usize, &self.proofs[*p].clone().into())),
         }
     }
     fn tree(&mut self, leaves: Vec<u64>) -> usize {
@@ -51,14 +86,14 @@ impl Ctx {
         let t = PlainMerkleTree::new(&datas);
         let id = self.trees.len();
         let ids = leaves.iter().map(|d| d.to_string()).collect::<Vec<_>>().join(" ");
-        self.rec.step(&format!("tree {id} {ids}"), &format!("h {}", t.height()));
+        self.step(&format!("tree {id} {ids}"), &format!("h {}", t.height()));
         self.trees.push((t, leaves));
         id
     }
     fn proof(&mut self, t: usize, i: usize) -> usize {
         let p = self.trees[t].0.create_proof(i);
         let id = self.proofs.len();
-        self.rec.step(&format!("proof {id} {t} {i}"), &format!("len {}", p.len()));
+        self.step(&format!("proof {id} {t} {i}"), &format!("len {}", p.len()));
         self.proofs.push(p);
         id
     }
@@ -66,23 +101,23 @@ impl Ctx {
         let (s, h) = self.resolve(r, rng);
         self.proofs[p][j] = h;
         let n = self.proofs[p].len();
-        self.rec.step(&format!("set {p} {j} {s}"), &format!("len {n}"));
+        self.step(&format!("set {p} {j} {s}"), &format!("len {n}"));
     }
     fn push(&mut self, p: usize, r: &Ref, rng: &mut Rng) {
         let (s, h) = self.resolve(r, rng);
         self.proofs[p].push(h);
         let n = self.proofs[p].len();
-        self.rec.step(&format!("push {p} {s}"), &format!("len {n}"));
+        self.step(&format!("push {p} {s}"), &format!("len {n}"));
     }
     fn trunc(&mut self, p: usize, n: usize) {
         self.proofs[p].truncate(n);
         let n = self.proofs[p].len();
-        self.rec.step(&format!("trunc {p} {n}"), &format!("len {n}"));
+        self.step(&format!("trunc {p} {n}"), &format!("len {n}"));
     }
     fn copy(&mut self, p: usize) -> usize {
         let id = self.proofs.len();
         let q = self.proofs[p].clone();
-        self.rec.step(&format!("copy {id} {p}"), &format!("len {}", q.len()));
+        self.step(&format!("copy {id} {p}"), &format!("len {}", q.len()));
         self.proofs.push(q);
         id
     }
@@ -103,14 +138,18 @@ impl Ctx {
             Ok(b) => b.to_string(),
             Err(_) => "panic".to_string(),
         };
-        self.rec.step(&op, &out);
+        self.step(&op, &out);
         self.class = fnv(self.class, &format!("{}{}{}", last, why, out));
         let got = res.clone().unwrap_or(false);
         self.rec.count(&format!("verdict:{}:{}", if last { "last" } else { "check" }, out));
         self.rec.oracle(res.is_ok(), "merkle-check-panics", || format!("{op}: panicked"));
         if let Some(e) = expect {
             self.rec.oracle(got == e, &format!("merkle-{}-{}", if last { "last" } else { "check" }, why), || {
-                format!("{op}: got {got}, property demands {e} ({why}); leaves of tree = {:?}", match root { Ref::R(t) => self.trees[*t].1.clone(), _ => vec![] })
+                {
+                    let lv: Vec<u64> = match root { Ref::R(t) => self.trees[*t].1.clone(), _ => vec![] };
+                    let shown = if lv.len() > 24 { format!("{:?} ... ({} leaves)", &lv[..24], lv.len()) } else { format!("{lv:?}") };
+                    format!("{op}: got {got}, property demands {e} ({why}); leaves of tree = {shown}")
+                }
             });
         }
         got
@@ -126,17 +165,19 @@ fn main() {
     let args = Args::parse();
     quiet_panics();
     let mut rng = Rng::new(args.seed);
-    let mut cx = Ctx { rec: Recorder::new(), trees: vec![], proofs: vec![], junk: vec![], class: 0 };
+    let mut cx = Ctx { rec: Recorder::new(), trees: vec![], proofs: vec![], junk: vec![], empty: empty_roots(), class: 0, mute: false };
 
     let sizes: Vec<usize> = if args.thorough {
         let mut v: Vec<usize> = (1..=1024).collect();
-        for k in 11..=12 {
+        for k in 11..=17 {
             v.extend([(1 << k) - 1, 1 << k, (1 << k) + 1]);
         }
         v
     } else {
         let mut v: Vec<usize> = (1..=40).collect();
         v.extend([63, 64, 65, 127, 128, 129, 255, 257, 1000, 1023, 1024, 1025]);
+        // one large tree: past every 8- and 16-bit boundary of node counts / offsets (2n nodes in total)
+        v.push(*rng.pick(&[32769usize, 40000, 65535, 65536, 65537]));
         v
     };
 
@@ -263,6 +304,38 @@ fn main() {
             }
             cx.rec.end_case(cx.class ^ n as u64, true);
         }
+    }
+    // ---- case E: a proof of the maximal height. The last leaf of a small tree, its proof continued with empty right
+    // siblings up to 32 entries, is a valid (last-leaf) proof under the root it derives; one entry more must be refused
+    // even though the first 32 entries are a valid proof
+    for n in [1usize, 2, 3, 5, 8, 13] {
+        cx.trees.clear();
+        cx.proofs.clear();
+        cx.class = 0;
+        cx.rec.begin_case("maximal-height");
+        cx.step(&format!("tree 0 {}", n), &format!("h 0")); // placeholder line so that the case is not empty in the stream
+        cx.mute = true;
+        let lv = leaves(n, 30000, &[]);
+        let t = cx.tree(lv.clone());
+        let i = n - 1;
+        let p = cx.proof(t, i);
+        let h = cx.proofs[p].len();
+        for k in h..32 {
+            cx.push(p, &Ref::E(k), &mut rng);
+        }
+        let root = Ref::D(lv[i], i as u64, p);
+        cx.check(false, lv[i], i as u64, &root, p, Some(true), "maximal-height-proof-verifies", &mut rng);
+        cx.check(true, lv[i], i as u64, &root, p, Some(true), "maximal-height-proof-verifies", &mut rng);
+        let q = cx.copy(p);
+        let extra = if rng.chance(1, 2) { Ref::Z(rng.below(4) as usize) } else { Ref::E(rng.below(32) as usize) };
+        cx.push(q, &extra, &mut rng);
+        let root33 = Ref::D(lv[i], i as u64, p);
+        cx.check(false, lv[i], i as u64, &root33, q, Some(false), "lengthened-proof-rejected", &mut rng);
+        cx.check(true, lv[i], i as u64, &root33, q, Some(false), "lengthened-proof-rejected", &mut rng);
+        cx.push(q, &Ref::Z(0), &mut rng);
+        cx.check(true, lv[i], i as u64, &root33, q, Some(false), "lengthened-proof-rejected", &mut rng);
+        cx.mute = false;
+        cx.rec.end_case(cx.class ^ n as u64, true);
     }
     let extra = serde_json::json!({ "sizes": sizes.len(), "max_size": sizes.iter().max() });
     cx.rec.finish(&args, extra);
